@@ -129,24 +129,34 @@ def dump_histories(cfg, timeout=3000, workers=4, jvm_opts=JVM_SHORT):
             raise tlc.MachineryError('model Conn (%s) violates %s:\n%s' % (cfg, res.violated, res.out[-3000:]))
         with open(dump + '.dump') as f:
             text = f.read()
-        model, bads = {}, {}
-        rx = re.compile(r'^/\\ (kind|fam|hist|out|bad) = ', re.M)
-        cur = {}
-        for m in rx.finditer(text):
-            name = m.group(1)
-            if name in cur:
-                raise tlc.MachineryError('state dump not understood near offset %d' % m.start())
-            val, _ = tlc.tlaval.parse_prefix(text, m.end())
-            cur[name] = val
-            if len(cur) == 5:
-                key = (cur['kind'], cur['fam'], hkey(cur['hist']))
-                model[key] = cur['out']
-                if cur['bad']:
-                    bads[key] = cur['bad']
-                cur = {}
-        if cur or len(model) != res.distinct:
+        model, bads, cover = {}, {}, {}
+        need = ('kind', 'fam', 'hist', 'out', 'bad')
+        absvars = ('pst', 'rdg', 'acc', 'pend', 'kfin', 'krst', 'sw', 'sv', 'T', 'evq')
+        rx = re.compile(r'^/\\ (\w+) = ', re.M)
+        hdr = re.compile(r'^State \d+:.*$', re.M)
+        heads = [m.end() for m in hdr.finditer(text)] + [len(text)]
+        for a, b in zip(heads, heads[1:]):
+            block = text[a:b]
+            ms = list(rx.finditer(block))
+            raw = {}
+            for i, m in enumerate(ms):
+                end = ms[i + 1].start() if i + 1 < len(ms) else len(block)
+                raw[m.group(1)] = (m.end(), end)
+            if any(v not in raw for v in need + absvars):
+                raise tlc.MachineryError('state dump not understood near offset %d' % a)
+            cur = {v: tlc.tlaval.parse_prefix(block, raw[v][0])[0] for v in need}
+            h = hkey(cur['hist'])
+            key = (cur['kind'], cur['fam'], h)
+            model[key] = cur['out']
+            if cur['bad']:
+                bads[key] = cur['bad']
+            # state cover: the shortest history reaching each distinct model state (monitor and history aside)
+            ak = (cur['kind'], cur['fam']) + tuple(' '.join(block[raw[v][0]:raw[v][1]].split()) for v in absvars)
+            if ak not in cover or (len(h), repr(h)) < (len(cover[ak]), repr(cover[ak])):
+                cover[ak] = h
+        if len(model) != res.distinct:
             raise tlc.MachineryError('state dump not understood: %d states read, TLC reported %d' % (len(model), res.distinct))
-        return res, model, bads
+        return res, model, bads, set(cover.values())
     finally:
         shutil.rmtree(wd, ignore_errors=True)
 
@@ -337,7 +347,8 @@ def witness_of(lines, badline, clause, fam):
             if lines[j]['p'] == p and lines[j]['c'] == c:
                 tabs.add(lines[j]['t'])
             j -= 1
-        w['tables'] = ','.join(sorted(tabs))
+        w['table'] = ln['t']
+        w['tables_at_that_point'] = ','.join(sorted(tabs))
         w['late_write'] = late_write
         w['late_close'] = late_close
         w['error_while_writing'] = wrote and errored
@@ -350,64 +361,124 @@ def witness_of(lines, badline, clause, fam):
 # corrupted traces (binding demonstration)
 
 def corrupt(rnd, lines):
-    """Corrupt an accepted real trace so that it must be rejected:
-    (lines, description, acceptable verdicts) or None."""
+    """Corrupt a real trace so that a new failure must be reported:
+    (lines, description, acceptable clauses, line number of the failure or 0,
+    (world, connection) of the failure or None), or None."""
     out = [dict(l) for l in lines]
-    idx = {k: [i for i, l in enumerate(lines) if l['k'] == k] for k in ('connect', 'read', 'disconnect', 'quiet', 'cdisconnected', 'cconnected')}
-    how = rnd.choice(['dup_disc', 'dup_read', 'shift_read', 'drop_connect', 'late_read', 'residue', 'drop_disc', 'client'])
-    if how == 'client':
-        if idx['cdisconnected']:
-            i = rnd.choice(idx['cdisconnected'])
-            out.insert(i, dict(out[i]))
-            return out, 'cdisconnected twice at line %d' % (i + 1), ('C12.client_pairs',)
-        how = 'dup_disc'
-    if any(l['k'].startswith('c') and l['k'] != 'connect' for l in lines):
+    idx = {k: [i for i, l in enumerate(lines) if l['k'] == k] for k in ('connect', 'read', 'disconnect', 'quiet', 'cdisconnected')}
+    if idx['cdisconnected']:
+        i = rnd.choice(idx['cdisconnected'])
+        out.insert(i, dict(out[i]))
+        return out, 'cdisconnected twice at line %d' % (i + 1), ('C12.client_pairs',), i + 2, None
+    if any(l['k'] in ('cconnected', 'cquiet') for l in lines):
         return None
-    if how == 'dup_disc' and idx['disconnect']:
-        i = rnd.choice(idx['disconnect'])
+    announced = {(l['p'], l['c']) for l in lines if l['k'] == 'connect'}
+    discs = [i for i in idx['disconnect'] if (lines[i]['p'], lines[i]['c']) in announced]
+    how = rnd.choice(['dup_disc', 'dup_read', 'shift_read', 'drop_connect', 'late_read', 'residue', 'drop_disc'])
+    if how == 'dup_disc' and discs:
+        i = rnd.choice(discs)
         out.insert(i + 1, dict(out[i]))
-        return out, 'disconnect twice at line %d' % (i + 1), ('C12.disconnect_count',)
+        return out, 'disconnect twice at line %d' % (i + 1), ('C12.disconnect_count',), i + 2, None
     if how == 'dup_read' and idx['read']:
         i = rnd.choice(idx['read'])
         out.insert(i + 1, dict(out[i]))
-        return out, 'read twice at line %d' % (i + 1), ('C12.read_gap',)
+        return out, 'read twice at line %d' % (i + 1), ('C12.read_gap',), i + 2, None
     if how == 'shift_read' and idx['read']:
         i = rnd.choice(idx['read'])
         out[i]['a'] += 1
-        return out, 'read offset +1 at line %d' % (i + 1), ('C12.read_gap',)
+        return out, 'read offset +1 at line %d' % (i + 1), ('C12.read_gap',), i + 1, None
     if how == 'drop_connect' and idx['connect']:
         i = rnd.choice(idx['connect'])
         p, c = out[i]['p'], out[i]['c']
         if any(l['p'] == p and l['c'] == c and l['k'] in ('read', 'disconnect') for l in lines[i + 1:]):
             del out[i]
-            return out, 'connect dropped at line %d' % (i + 1), ('C12.lifecycle', 'C12.poller_disagree')
-    if how == 'late_read' and idx['disconnect']:
-        i = rnd.choice(idx['disconnect'])
+            return out, 'connect dropped at line %d' % (i + 1), ('C12.lifecycle',), 0, (p, c)
+    if how == 'late_read' and discs:
+        i = rnd.choice(discs)
         out.insert(i + 1, line('read', out[i]['p'], out[i]['c'], 0, 1))
-        return out, 'read after disconnect at line %d' % (i + 1), ('C12.lifecycle',)
-    if how == 'residue' and idx['disconnect']:
-        i = rnd.choice(idx['disconnect'])
+        return out, 'read after disconnect at line %d' % (i + 1), ('C12.lifecycle',), i + 2, None
+    if how == 'residue' and discs:
+        i = rnd.choice(discs)
         p, c = out[i]['p'], out[i]['c']
         q = [j for j in idx['quiet'] if j > i and lines[j]['p'] == p]
         if q:
             out.insert(q[0], line('residue', p, c, 0, 0, '_clients'))
-            return out, '_clients residue before line %d' % (q[0] + 1), ('C12.residue',)
-    if how == 'drop_disc' and idx['disconnect']:
-        # only where the peer closed without a preceding application close and the
-        # connection is clean: the missing disconnect must be noticed at quiescence
-        for i in idx['disconnect']:
+            return out, '_clients residue before line %d' % (q[0] + 1), ('C12.residue',), q[0] + 1, None
+    if how == 'drop_disc':
+        # where the peer closed or aborted, the missing disconnect must be noticed at quiescence
+        for i in discs:
             p, c = out[i]['p'], out[i]['c']
-            mine = [l for l in lines[:i] if l['p'] == p and l['c'] == c]
-            if any(l['k'] in ('pclose', 'preset') for l in mine) and not any(l['k'] in ('lwrite', 'lclose') for l in lines if l['p'] == p and l['c'] == c):
+            if any(l['k'] in ('pclose', 'preset') and l['p'] == p and l['c'] == c for l in lines[:i]):
                 del out[i]
-                return out, 'disconnect dropped at line %d' % (i + 1), ('C12.disconnect_count', 'C12.poller_disagree')
+                return out, 'disconnect dropped at line %d' % (i + 1), ('C12.disconnect_count',), 0, None
     return None
+
+
+def corruption_noticed(m, verdict):
+    out, desc, clauses, at, pc = m
+    for clause, ln in verdict:
+        if clause not in clauses:
+            continue
+        if at and ln != at:
+            continue
+        if pc and (out[ln - 1]['p'], out[ln - 1]['c']) != pc:
+            continue
+        return True
+    return False
 
 
 # ---------------------------------------------------------------------------
 
-def judge(traces, shards):
-    return tlc.validate_traces(SPEC, 'ConnTrace', 'ConnTrace.cfg', traces, shards=shards, timeout=1800, jvm_opts=JVM_SHORT)
+def judge(traces, shards, timeout=1800):
+    """Judge traces with ConnTrace.  Returns (verdicts, stats): verdicts[i] =
+    list of (clause, line number) - every distinct failure of the trace, in
+    order; [] = accepted."""
+    import time as _time
+    from concurrent.futures import ThreadPoolExecutor
+    n = len(traces)
+    if n == 0:
+        return [], {'states': 0, 'wall_s': 0.0, 'shards': 0}
+    shards = max(1, min(shards, (n + 7) // 8))
+    chunks = [list(range(i, n, shards)) for i in range(shards)]
+    wd = tlc.workdir('tv')
+    t0 = _time.time()
+    try:
+        def one(k):
+            idxs = chunks[k]
+            path = os.path.join(wd, 'traces%d.json' % k)
+            with open(path, 'w') as f:
+                json.dump([traces[i] for i in idxs], f)
+            res = tlc.run_tlc(SPEC, 'ConnTrace', 'ConnTrace.cfg', workers=1, timeout=timeout, env={'TRACE_FILE': path},
+                              jvm_opts=JVM_SHORT)
+            if res.violated:
+                raise tlc.MachineryError('trace spec ConnTrace reported %s (it must be total):\n%s' % (res.violated, res.out[-3000:]))
+            part = {}
+            for m in tlc._VERDICT.finditer(res.out):
+                try:
+                    v, _ = tlc.tlaval.parse_prefix(res.out, m.start())
+                except tlc.tlaval.TlaParseError:
+                    continue
+                if isinstance(v, list) and len(v) >= 5:
+                    first = [(v[2], v[3])] if v[2] else []
+                    rest = [(x[0], x[1]) for x in v[4]]
+                    if first and first[0] not in rest:
+                        rest = first + rest
+                    part[idxs[v[1] - 1]] = rest
+            missing = [i for i in idxs if i not in part]
+            if missing:
+                raise tlc.MachineryError('trace spec ConnTrace gave no verdict for %d traces:\n%s' % (len(missing), res.out[-3000:]))
+            return res, part
+
+        verdicts = [None] * n
+        states = 0
+        with ThreadPoolExecutor(max_workers=shards) as ex:
+            for res, part in ex.map(one, range(shards)):
+                states += res.distinct
+                for i, v in part.items():
+                    verdicts[i] = v
+        return verdicts, {'states': states, 'wall_s': _time.time() - t0, 'shards': shards}
+    finally:
+        shutil.rmtree(wd, ignore_errors=True)
 
 
 def fmt(ln):
@@ -427,13 +498,14 @@ def run_replay(path):
     else:
         lines, _, notes = replay_history([tuple(x) for x in d['hist']], d['family'], d.get('pollers') or POLLERS, d.get('scale', 1))
     verdicts, _ = judge([lines], 1)
-    clause, ln = verdicts[0]
     for i, l in enumerate(lines, 1):
         print('%3d %s' % (i, fmt(l)))
     for n in notes:
         print('note:', n)
-    if clause:
-        print('VIOLATION property=C12 replay=%s clause=%s line=%d %s' % (path, clause, ln, fmt(lines[ln - 1])))
+    if verdicts[0]:
+        for clause, ln in verdicts[0]:
+            print('VIOLATION property=C12 replay=%s clause=%s line=%d %s witness=%s' % (
+                path, clause, ln, fmt(lines[ln - 1]), json.dumps(witness_of(lines, ln, clause, d['family']), sort_keys=True)))
         return 1
     print('replay accepted: no clause of C12 fails on this tree')
     return 0
@@ -462,7 +534,7 @@ def run(tier, replay=None):
     #    all invariants (quick: the dump run itself is the exhaustive check; thorough: deeper bounds
     #    with a VIEW, 2 and 3 connections).  Pinned algorithm: must violate C12.residue and
     #    C12.lifecycle in the model (thorough: every deviation on its own must).
-    res_f, model_f, bads_f = dump_histories('HIST_Conn_fixed.cfg' if quick else 'HIST_Conn_fixed_thorough.cfg')
+    res_f, model_f, bads_f, _ = dump_histories('HIST_Conn_fixed.cfg' if quick else 'HIST_Conn_fixed_thorough.cfg')
     if bads_f:
         raise tlc.MachineryError('the intended algorithm of Conn.tla violates %r' % (sorted(set(bads_f.values())),))
     mc_states, mc_trans = res_f.distinct, res_f.generated
@@ -483,7 +555,7 @@ def run(tier, replay=None):
                 raise tlc.MachineryError('MC_Conn_%s.cfg: expected a violation of Conforms, got %r' % (d, r.violated))
             single[d] = [st.get('bad') for _, st in r.error_trace][-1] if r.error_trace else 'Conforms'
         phase('mc_thorough')
-    res, model, bads = dump_histories('HIST_Conn.cfg' if quick else 'HIST_Conn_thorough.cfg')
+    res, model, bads, cover = dump_histories('HIST_Conn.cfg' if quick else 'HIST_Conn_thorough.cfg')
     teeth = sorted(set(bads.values()))
     if 'C12.residue' not in teeth or 'C12.lifecycle' not in teeth:
         raise tlc.MachineryError('the pinned variant of Conn.tla no longer violates C12.residue and C12.lifecycle: %r' % (teeth,))
@@ -492,15 +564,22 @@ def run(tier, replay=None):
         raise tlc.MachineryError('the two variants of Conn.tla do not have the same environment histories')
     mx = maximal(allh)
     bad_h = sorted({k[2] for k in bads if k[2] in set(mx)}, key=repr)
-    # stratified seeded sample: one shortest counterexample per (clause, poller, family) + a share of the rest
+    # what is replayed: the shortest counterexample per (clause, poller, family); the state cover (the
+    # shortest history reaching each distinct state of the model: every distinct behaviour of a
+    # following Settle occurs once); a seeded sample of the remaining maximal histories
     first = {}
     for k in sorted(bads, key=lambda k: (len(k[2]), repr(k))):
         first.setdefault((bads[k], k[0], k[1]), k[2])
     chosen = {}
     for key, h in first.items():
         chosen[h] = 'tlc-counterexample'
-    n_bad, n_rest = (60, 130) if quick else (1500, 3000)
-    for h in rnd.sample(bad_h, min(n_bad, len(bad_h))):
+    for h in sorted(cover, key=repr):
+        if h:
+            chosen.setdefault(h, 'tlc-state-cover')
+    n_cover = len(cover)
+    n_bad, n_rest = (20, 40) if quick else (500, 1500)
+    rest = [h for h in bad_h if h not in chosen]
+    for h in rnd.sample(rest, min(n_bad, len(rest))):
         chosen.setdefault(h, 'tlc-counterexample')
     rest = [h for h in mx if h not in chosen]
     for h in rnd.sample(rest, min(n_rest, len(rest))):
@@ -545,26 +624,26 @@ def run(tier, replay=None):
                 n_client += 1
     phase('client')
 
-    verdicts, stats = judge([t[1] for t in traces], shards=3 if quick else 8)
+    verdicts, stats = judge([t[1] for t in traces], 3 if quick else 8)
     phase('judge')
     accepted = []
     n_events = 0
     by_clause = {}
-    for (meta, lines), (clause, ln) in zip(traces, verdicts):
+    for (meta, lines), vs in zip(traces, verdicts):
         nev = sum(1 for l in lines if l['k'] in EVENTS or l['k'] in ('cconnected', 'cdisconnected'))
         n_events += nev
         case = [meta['kind'], meta['family'], meta.get('hist') or [meta['poller'], meta['script']], meta.get('scale', 1)]
         ctx.count_case(case, nev > 0, sample={'family': meta['family'], 'origin': meta['origin'],
                                               'history': meta.get('hist') or meta.get('script'), 'lines': len(lines),
-                                              'verdict': clause or 'accepted'})
-        if clause:
+                                              'verdict': [v[0] for v in vs] or 'accepted'})
+        if not vs:
+            accepted.append(lines)
+        for clause, ln in vs:
             w = witness_of(lines, ln, clause, meta['family'])
             by_clause[clause] = by_clause.get(clause, 0) + 1
             d = dict(meta)
             d.update({'line': ln, 'failing_line': lines[ln - 1], 'trace': lines, 'pollers': POLLERS})
             ctx.violation(clause, w, d)
-        else:
-            accepted.append(lines)
 
     # 5. conformance drift: the model's lines against the real ones, per poller and family
     cmp_n = cmp_ok = 0
@@ -602,23 +681,26 @@ def run(tier, replay=None):
                     (' model=%r real=%r' % ([r[1] for r in shown or []], [r[1] for r in real])) if os.environ.get('VERIF_DEBUG') else ''))
     phase('compare')
 
-    # 6. binding demonstration: corrupted real traces must be rejected
+    # 6. binding demonstration: corrupted real traces must be rejected at the corruption
     muts = []
-    rnd.shuffle(accepted)
-    for lines in accepted:
+    hard = ('C12.read_gap', 'C12.lifecycle', 'C12.disconnect_count', 'C12.poller_disagree', 'C12.client_pairs')
+    pool = [t[1] for t, vs in zip(traces, verdicts) if not any(c in hard for c, _ in vs)]
+    rnd.shuffle(pool)
+    for lines in pool:
         if len(muts) >= (60 if quick else 400):
             break
         m = corrupt(rnd, lines)
         if m:
             muts.append(m)
     corrupt_by_clause = {}
+    selftest = ''
     if muts:
         mv, _ = judge([m[0] for m in muts], shards=1 if quick else 4)
-        missed = [(muts[i][1], c) for i, (c, _) in enumerate(mv) if c not in muts[i][2]]
+        missed = [(m[1], v) for m, v in zip(muts, mv) if not corruption_noticed(m, v)]
         if missed:
-            raise tlc.MachineryError('trace spec mis-judged %d corrupted traces, e.g. %s -> %r' % (len(missed), missed[0][0], missed[0][1]))
-        for m, (c, _) in zip(muts, mv):
-            corrupt_by_clause[c] = corrupt_by_clause.get(c, 0) + 1
+            selftest = 'trace spec mis-judged %d corrupted traces, e.g. %s -> %r' % (len(missed), missed[0][0], missed[0][1])
+        for m in muts:
+            corrupt_by_clause[m[2][0]] = corrupt_by_clause.get(m[2][0], 0) + 1
     phase('corrupt')
 
     nfd1 = len(os.listdir('/proc/self/fd'))
@@ -628,10 +710,10 @@ def run(tier, replay=None):
     if left:
         raise tlc.MachineryError('socket paths left behind: %r' % (left,))
 
-    return ctx.finish(coverage={
+    rc = ctx.finish(coverage={
         'states': mc_states, 'transitions': mc_trans, 'single_deviation_counterexamples': single,
         'traces_validated_against_impl': len(traces),
-        'model_histories_replayed': len(chosen), 'model_histories_enumerated': len(mx),
+        'model_histories_replayed': len(chosen), 'model_histories_enumerated': len(mx), 'state_cover_histories': n_cover,
         'server_world_runs': (len(traces) - n_client) * 3, 'client_runs': n_client,
         'random_histories': nrand,
         'history_dump_states': res.distinct + res_f.distinct,
@@ -658,3 +740,8 @@ def run(tier, replay=None):
         'connections that may have been aborted (RST, close with unconsumed server bytes, write to a closed peer) are only required to '
         'deliver a gap-free prefix and are exempt from the poller comparison',
     ])
+    if selftest:
+        if rc == 0:
+            raise tlc.MachineryError(selftest)
+        print('C12: self-test of the trace specification failed as well: %s' % selftest, file=sys.stderr)
+    return rc
